@@ -131,7 +131,7 @@ template <class GC> void run(Ctx& ctx) {
                         if (op.c == 0) { Guard g; p = g.protect(ex.cell[c]); ex.validated(h, p); for (long k = 0; k < op.b; k++) dsim::point(dsim::K_USER); Ex<GC>::deref_ok(p, "Guard::protect", i); ex.releasing(h); }
                         else if (op.c == 1) { Guard g; Obj* q; do { p = ex.cell[c].load(atomics::memory_order_acquire); g.assign(p); q = ex.cell[c].load(atomics::memory_order_acquire); } while (p != q); ex.validated(h, p); for (long k = 0; k < op.b; k++) dsim::point(dsim::K_USER); Ex<GC>::deref_ok(p, "Guard::assign", i); ex.releasing(h); g.clear(); }
                         else if (op.c == 2) { typename GC::template GuardArray<2> ga; p = ga.protect(1, ex.cell[c]); ex.validated(h, p); for (long k = 0; k < op.b; k++) dsim::point(dsim::K_USER); Ex<GC>::deref_ok(p, "GuardArray::protect", i); ex.releasing(h); ga.clear(1); }
-                        else if (op.c == 4) { typename GC::template GuardArray<6> ga; p = ga.protect(5, ex.cell[c]); ex.validated(h, p); for (long k = 0; k < op.b; k++) dsim::point(dsim::K_USER); Ex<GC>::deref_ok(p, "GuardArray<6>::protect (DHP: slot in an extended guard block)", i); ex.releasing(h); ga.clear(5); ctx.probe("wide_guard_array"); }
+                        else if (op.c == 4) { static const size_t idx[4] = {5, 11, 19, 23}; size_t gi = idx[op.id & 3]; typename GC::template GuardArray<24> ga; p = ga.protect(gi, ex.cell[c]); ex.validated(h, p); for (long k = 0; k < op.b; k++) dsim::point(dsim::K_USER); Ex<GC>::deref_ok(p, "GuardArray<24>::protect (DHP: slot in the first or second extended guard block)", i); ex.releasing(h); ga.clear(gi); ctx.probe("wide_guard_array"); }
                         else { Guard g1; p = g1.protect(ex.cell[c]); ex.validated(h, p); { Guard g2; g2.copy(g1); g1.clear(); for (long k = 0; k < op.b; k++) dsim::point(dsim::K_USER); Ex<GC>::deref_ok(p, "Guard::copy", i); ex.releasing(h); } }
                         res = p ? W->find(p) ? (long)(W->find(p) - W->rec) : -2 : -1;
                         ctx.end_op(hi, res); ex.ended(h); return; }
@@ -189,7 +189,7 @@ void gen_common(Rng& r, Program& p, int tier, bool hp) {
         H = r.range(1, 6); int T = nth + 1 + r.below(3); int base = H * T;
         int R = r.pick({base + 1, base + 1, base + 2, 2 * base, 4 * base});
         p.set("H", H); p.set("T", T); p.set("R", R); p.set("classic", r.below(2));
-    } else { p.set("init_guards", r.pick({4, 16})); H = 64; }
+    } else { p.set("init_guards", r.pick({4, 6, 12, 16})); H = 64; }
     bool odd = r.chance(300);
     p.threads.resize(nth);
     for (int t = 0; t < nth; t++) {
@@ -203,7 +203,7 @@ void gen_common(Rng& r, Program& p, int tier, bool hp) {
             else if (x < (writer ? 75 : 32) && nheld == 0) p.add(t, O_REATTACH);
             else if (x < 55 && nheld < 2 && H - nheld >= 2) { int s = held[0] ? 1 : 0; p.add(t, O_ACQ, s, r.below(cells)); held[s] = true; }
             else if (x < 65 && nheld > 0) { int s = held[0] ? 0 : 1; if (r.chance(300)) p.add(t, O_DEREF, s, r.below(4)); else { p.add(t, O_REL, s, r.below(2)); held[s] = false; } }
-            else { int avail = H - nheld; if (avail >= 1) { int variant = r.below(5); if (variant == 4 && avail < 6) variant = r.below(4); if ((variant == 2 || variant == 3) && avail < 2) variant = r.below(2); p.add(t, O_READ, r.below(cells), r.pick({0, 1, 3, 8}), variant); } else p.add(t, O_SCAN, 0); }
+            else { int avail = H - nheld; if (avail >= 1) { int variant = r.below(5); if (variant == 4 && avail < 24) variant = r.below(4); if ((variant == 2 || variant == 3) && avail < 2) variant = r.below(2); p.add(t, O_READ, r.below(cells), r.pick({0, 1, 3, 8}), variant); } else p.add(t, O_SCAN, 0); }
         }
     }
 }
